@@ -17,10 +17,19 @@ extern "C" const char* __ubsan_default_options() { return "halt_on_error=1:exitc
 extern std::set<uint64_t> g_abstract_states;
 static volatile long g_current_run = -1;
 
+#include <setjmp.h>
+extern sigjmp_buf g_hang_jmp; extern volatile sig_atomic_t g_hang_armed, g_hang_pending; void arm_run_timer(int seconds);
+static void on_signal(int sig);
+static void on_vtalrm(int sig) {
+	if (g_hang_armed && g_in_sut) { g_hang_armed = 0; siglongjmp(g_hang_jmp, 1); }      // inside library code: abandon the call
+	if (g_hang_armed) { g_hang_pending = 1; return; }                                    // inside a hook: leave at its end
+	on_signal(sig);                                                                      // the harness itself hangs
+}
+
 static void on_signal(int sig) {
 	char buf[96]; int n = snprintf(buf, sizeof(buf), "\nCRASH run=%ld signal=%d\n", g_current_run, sig);
 	if (n > 0) { ssize_t r = write(1, buf, static_cast<size_t>(n)); (void) r; }
-	_exit(sig == SIGALRM ? 78 : 77);
+	_exit((sig == SIGALRM || sig == SIGVTALRM) ? 78 : 77);
 }
 
 static uint64_t str_hash(const char* s) { uint64_t h = 0xcbf29ce484222325ULL; for (; *s; ++s) { h ^= static_cast<uint8_t>(*s); h *= 0x100000001b3ULL; } return h; }
@@ -124,7 +133,7 @@ int main(int argc, char** argv) {
 		#undef NEXT
 	}
 	g_info = sut_info();
-	signal(SIGSEGV, on_signal); signal(SIGBUS, on_signal); signal(SIGFPE, on_signal); signal(SIGILL, on_signal); signal(SIGABRT, on_signal); signal(SIGALRM, on_signal);
+	signal(SIGSEGV, on_signal); signal(SIGBUS, on_signal); signal(SIGFPE, on_signal); signal(SIGILL, on_signal); signal(SIGABRT, on_signal); signal(SIGALRM, on_signal); signal(SIGVTALRM, on_vtalrm);
 	setvbuf(stdout, 0, _IOLBF, 0);
 
 	if (!replay.empty()) {
@@ -139,9 +148,9 @@ int main(int argc, char** argv) {
 		}
 		size_t cpos = text.find("\ncase "); if (cpos == std::string::npos && text.compare(0, 5, "case ") != 0) { fprintf(stderr, "no case in replay file\n"); return 2; }
 		Case c; if (!case_from_text(text.substr(cpos == std::string::npos ? 0 : cpos + 1), c, err)) { fprintf(stderr, "bad replay file: %s\n", err.c_str()); return 2; }
-		g_current_run = 0; alarm(60);
-		EvalResult e1 = evaluate_case(c), e2 = evaluate_case(c);
-		alarm(0);
+		g_current_run = 0; alarm(120); arm_run_timer(8);
+		EvalResult e1 = evaluate_case(c); arm_run_timer(8); EvalResult e2 = evaluate_case(c);
+		alarm(0); arm_run_timer(0);
 		bool det = e1.digest_full == e2.digest_full && e1.violations.size() == e2.violations.size();
 		printf("REPLAY variant=%s digest=%016llx deterministic=%d violations=%zu\n", g_info->variant, static_cast<unsigned long long>(e1.digest_full), det ? 1 : 0, e1.violations.size());
 		for (size_t i = 0; i < e1.violations.size(); ++i) printf("  violation property=%s clause=%s step=%d node=%d: %s\n", e1.violations[i].prop.c_str(), e1.violations[i].clause.c_str(), e1.violations[i].op_index, e1.violations[i].node, e1.violations[i].msg.c_str());
@@ -170,9 +179,9 @@ int main(int argc, char** argv) {
 		if (!quiet && (run - from) % 256 == 0) printf("BEGIN run=%ld\n", run);
 		Rng rng(mix_seed(seed, ph, vh, static_cast<uint64_t>(run)));
 		Case c = generate_case(rng, *g_info, prof);
-		alarm(30);
+		alarm(300); arm_run_timer(8);          // CPU-time watchdog (immune to machine load) + a generous wall-clock backstop
 		EvalResult er = evaluate_case(c);
-		alarm(0);
+		alarm(0); arm_run_timer(0);
 		if (digests) printf("DIGEST run=%ld neutral=%016llx full=%016llx\n", run, static_cast<unsigned long long>(er.digest_neutral), static_cast<unsigned long long>(er.digest_full));
 		if (er.nontrivial) { ++nontrivial_runs; distinct_runs.insert(er.digest_full); }
 		distinct_states.insert(er.digest_neutral ^ 0x5555);
